@@ -1345,7 +1345,7 @@ Qed.
 (* ------------------------------------------------------------------ the table operations of Dec/Post.v, generic in the line type *)
 Section Generic.
 Context {L : Type} (get_fs : L -> list string) (set_fs : L -> list string -> L).
-Definition gtable : Type := (string * list L)%type.
+Local Notation gtable := (string * list L)%type.
 
 Fixpoint g_find (m : string) (T : list gtable) : option (list L) :=
   match T with [] => None | (m', ls) :: r => if String.eqb m m' then Some ls else g_find m r end.
@@ -1517,4 +1517,601 @@ Proof.
     rewrite <- V1. apply map_ext_in. intros y Hy. apply erase_ext. intros a Ha. apply nth_upd_other. intros ->. apply Hnj. unfold tids. apply in_flat_map. exists y. auto.
   - split; [rewrite upd_length; apply F1|]. intros a Ha. rewrite nth_upd_other by (intros ->; apply Ha; simpl; auto).
     destruct F1 as [_ F]. apply F. intros Hin. apply Ha. simpl. right. exact Hin.
+Qed.
+
+(* ------------------------------------------------------------------ naturality of the generic table operations *)
+Section Natural.
+Context {L1 L2 : Type} (get1 : L1 -> list string) (set1 : L1 -> list string -> L1)
+        (get2 : L2 -> list string) (set2 : L2 -> list string -> L2) (r : L1 -> L2).
+Hypothesis r_get : forall l, get2 (r l) = get1 l.
+Hypothesis r_set : forall l fs, r (set1 l fs) = set2 (r l) fs.
+
+Definition tmap (t : (string * list L1)%type) : (string * list L2)%type := (fst t, map r (snd t)).
+
+Lemma nat_find m T : g_find m (map tmap T) = option_map (map r) (g_find m T).
+Proof. induction T as [|[m' ls] T IH]; [reflexivity|]. cbn [map tmap fst snd g_find]. destruct (String.eqb m m'); [reflexivity | exact IH]. Qed.
+
+Lemma nat_fst T : map fst (map tmap T) = map fst T.
+Proof. rewrite map_map. reflexivity. Qed.
+
+Lemma nat_add_copies copies T : g_add_copies copies (map tmap T) = map tmap (g_add_copies copies T).
+Proof.
+  unfold g_add_copies. rewrite map_app. f_equal. rewrite <- map_rev, flat_map_concat_map, flat_map_concat_map, concat_map, map_map. f_equal.
+  apply map_ext. intros kv. rewrite nat_find. destruct (g_find (snd kv) (rev T)); reflexivity.
+Qed.
+
+Lemma nat_conj_lines ccdb : forall ls d,
+  g_conj_lines get2 set2 ccdb d (map r ls) = (fst (g_conj_lines get1 set1 ccdb d ls), map r (snd (g_conj_lines get1 set1 ccdb d ls))).
+Proof.
+  induction ls as [|l ls IH]; intros d; [reflexivity|]. cbn [map]. rewrite !g_conj_lines_cons. rewrite r_get. rewrite IH. cbn [fst snd map]. rewrite r_set. reflexivity.
+Qed.
+
+Lemma nat_conj_table ccdb d t :
+  g_conj_table get2 set2 ccdb d (tmap t) = (fst (g_conj_table get1 set1 ccdb d t), tmap (snd (g_conj_table get1 set1 ccdb d t))).
+Proof.
+  destruct t as [m ls]. unfold g_conj_table, tmap. cbn [fst snd]. rewrite nat_conj_lines.
+  destruct (g_conj_lines get1 set1 ccdb d ls) as [d1 ls']. cbn [fst snd]. destruct (visit_names ccdb d1 [m]) as [d2 ms]. reflexivity.
+Qed.
+
+Lemma nat_cc_sources ccdb ccdefs cdecays T :
+  g_cc_sources ccdb ccdefs cdecays (map tmap T) = map tmap (g_cc_sources ccdb ccdefs cdecays T).
+Proof.
+  unfold g_cc_sources. rewrite nat_fst. rewrite <- map_rev. rewrite (flat_map_concat_map _ (fold_left _ _ _)), (flat_map_concat_map _ (fold_left _ _ _)), concat_map, map_map.
+  f_equal. apply map_ext. intros X. rewrite nat_find. destruct (g_find _ (rev T)); reflexivity.
+Qed.
+
+Lemma nat_cstep ccdb sc acc t :
+  g_cstep get2 set2 ccdb sc (fst acc, map tmap (snd acc)) (tmap t) =
+  (fst (g_cstep get1 set1 ccdb sc acc t), map tmap (snd (g_cstep get1 set1 ccdb sc acc t))).
+Proof.
+  destruct acc as [d out]. unfold g_cstep. cbn [fst snd tmap]. destruct (sc (fst t)) as [[|]|].
+  - cbn [fst snd]. rewrite map_app. reflexivity.
+  - destruct d as [|kv d']; change (fst t, map r (snd t)) with (tmap t); rewrite nat_conj_table;
+      [destruct (g_conj_table get1 set1 ccdb [] t) | destruct (g_conj_table get1 set1 ccdb (kv :: d') t)];
+      cbn [fst snd]; rewrite map_app; reflexivity.
+  - destruct d as [|kv d']; change (fst t, map r (snd t)) with (tmap t); rewrite nat_conj_table;
+      [destruct (g_conj_table get1 set1 ccdb [] t) | destruct (g_conj_table get1 set1 ccdb (kv :: d') t)];
+      cbn [fst snd]; rewrite map_app; reflexivity.
+Qed.
+
+Lemma nat_csteps ccdb sc : forall S acc,
+  fold_left (g_cstep get2 set2 ccdb sc) (map tmap S) (fst acc, map tmap (snd acc)) =
+  (fst (fold_left (g_cstep get1 set1 ccdb sc) S acc), map tmap (snd (fold_left (g_cstep get1 set1 ccdb sc) S acc))).
+Proof.
+  induction S as [|t S IH]; intros acc; [reflexivity|]. cbn [map fold_left]. rewrite nat_cstep. apply IH.
+Qed.
+
+Lemma nat_add_cc ccdb sc cdecays ccdefs T :
+  g_add_cc get2 set2 ccdb sc cdecays ccdefs (map tmap T) = map tmap (g_add_cc get1 set1 ccdb sc cdecays ccdefs T).
+Proof.
+  unfold g_add_cc. rewrite nat_fst. destruct (fold_left _ _ cdecays); [reflexivity|]. rewrite map_app. f_equal.
+  rewrite nat_cc_sources. change (ccdefs, @nil ((string * list L2)%type)) with (fst (ccdefs, @nil ((string * list L1)%type)), map tmap (snd (ccdefs, @nil ((string * list L1)%type)))).
+  rewrite nat_csteps. reflexivity.
+Qed.
+End Natural.
+
+(* ------------------------------------------------------------------ forests that denote tables *)
+Lemma g_find_app {L} m (A B : list (string * list L)) :
+  g_find m (A ++ B) = match g_find m A with Some ls => Some ls | None => g_find m B end.
+Proof. induction A as [|[m' ls] A IH]; [reflexivity|]. cbn [app g_find]. destruct (String.eqb m m'); [reflexivity | exact IH]. Qed.
+
+Lemma vmother_vd enc t : vmother (@vd enc t) = Some (fst t).
+Proof. reflexivity. Qed.
+
+Lemma den_mothers enc h : forall D P, map (erase h) D = map (@vd enc) P -> (forall t, In t D -> inb h t) -> mothers_h h D = map fst P.
+Proof.
+  induction D as [|t D IH]; intros [|p P] H Hb; simpl in H; try discriminate; [reflexivity|]. inversion H as [[Ht Hr]].
+  unfold mothers_h in *. cbn [flat_map map]. rewrite mother_of_erase by (apply Hb; left; reflexivity). rewrite Ht, vmother_vd. cbn [app]. f_equal.
+  apply IH; [exact Hr | intros; apply Hb; right; assumption].
+Qed.
+
+Lemma den_find_last enc h m : forall D P acc, map (erase h) D = map (@vd enc) P -> (forall t, In t D -> inb h t) ->
+  match g_find m (rev P) with
+  | Some ls => exists t, find_last h m D acc = Some t /\ In t D /\ erase h t = @vd enc (m, ls)
+  | None => find_last h m D acc = acc
+  end.
+Proof.
+  induction D as [|t D IH]; intros [|p P] acc H Hb; simpl in H; try discriminate; [reflexivity|]. inversion H as [[Ht Hr]].
+  cbn [rev find_last]. rewrite g_find_app. rewrite mother_of_erase by (apply Hb; left; reflexivity). rewrite Ht, vmother_vd.
+  assert (Hb' : forall t0, In t0 D -> inb h t0) by (intros; apply Hb; right; assumption).
+  specialize (IH P (if String.eqb m (fst p) then Some t else acc) Hr Hb').
+  destruct (g_find m (rev P)) as [ls|].
+  - destruct IH as (t0 & E & Hin & Ee). exists t0. split; [exact E|]. split; [right; exact Hin | exact Ee].
+  - rewrite IH. destruct p as [m' ls']. cbn [g_find fst]. destruct (String.eqb m m') eqn:Em.
+    + apply String.eqb_eq in Em. subst m'. exists t. split; [reflexivity|]. split; [left; reflexivity | exact Ht].
+    + reflexivity.
+Qed.
+
+Lemma g_csteps_acc {L} (get_fs : L -> list string) set_fs ccdb sc : forall S d out,
+  fold_left (g_cstep get_fs set_fs ccdb sc) S (d, out) =
+  (fst (fold_left (g_cstep get_fs set_fs ccdb sc) S (d, [])), (out ++ snd (fold_left (g_cstep get_fs set_fs ccdb sc) S (d, [])))%list).
+Proof.
+  induction S as [|t S IH]; intros d out; cbn [fold_left]; [cbn [fst snd]; rewrite app_nil_r; reflexivity|].
+  assert (Hstep : forall o, g_cstep get_fs set_fs ccdb sc (d, o) t = (fst (g_cstep get_fs set_fs ccdb sc (d, []) t), (o ++ snd (g_cstep get_fs set_fs ccdb sc (d, []) t))%list)).
+  { intros o. unfold g_cstep. destruct (sc (fst t)) as [[|]|]; [reflexivity| |];
+      (destruct d as [|kv d']; [destruct (g_conj_table get_fs set_fs ccdb [] t) | destruct (g_conj_table get_fs set_fs ccdb (kv :: d') t)]; reflexivity). }
+  rewrite (Hstep out). rewrite IH. rewrite (Hstep []). cbn [app]. rewrite (IH _ (snd (g_cstep get_fs set_fs ccdb sc (d, []) t))).
+  cbn [fst snd]. rewrite app_assoc. reflexivity.
+Qed.
+
+(* the visitor pass over the deep copies *)
+Lemma cc_steps_den ccdb sc enc : forall cs S d h,
+  map (erase h) cs = map (@vd enc) S -> NoDup (tids cs) -> (forall t, In t cs -> inb h t) ->
+  exists h', fold_left (cc_step ccdb sc) cs (d, h) = (fst (fold_left (g_cstep d_fs set_dfs ccdb sc) S (d, [])), h') /\
+             map (erase h') cs = map (@vd enc) (snd (fold_left (g_cstep d_fs set_dfs ccdb sc) S (d, []))) /\ frame (tids cs) h h'.
+Proof.
+  induction cs as [|t cs IH]; intros [|p S] d h H Hnd Hb; simpl in H; try discriminate.
+  - exists h. split; [reflexivity|]. split; [reflexivity | apply frame_refl].
+  - inversion H as [[Ht Hr]]. rewrite tids_cons in Hnd. destruct p as [m ls].
+    assert (Bt : inb h t) by (apply Hb; left; reflexivity).
+    cbn [fold_left].
+    (* one step *)
+    assert (Hstep : exists h1, cc_step ccdb sc (d, h) t = (fst (g_cstep d_fs set_dfs ccdb sc (d, []) (m, ls)), h1) /\
+                               [erase h1 t] = map (@vd enc) (snd (g_cstep d_fs set_dfs ccdb sc (d, []) (m, ls))) /\ frame (tok_ids t) h h1).
+    { unfold cc_step, g_cstep. rewrite mother_of_erase by exact Bt. rewrite Ht, vmother_vd. cbn [fst]. unfold pdict in *.
+      destruct (sc m) as [[|]|].
+      - exists h. split; [reflexivity|]. split; [cbn [snd app map]; rewrite Ht; reflexivity | apply frame_refl].
+      - destruct d as [|kv d'].
+        + destruct (cc_tree ccdb enc m ls t [] h Ht (NoDup_app_l _ _ Hnd) Bt) as (h1 & E1 & V1 & F1). unfold pdict in *.
+          exists h1. rewrite E1. cbn [snd]. split; [destruct (g_conj_table d_fs set_dfs ccdb [] (m, ls)); reflexivity|].
+          split; [destruct (g_conj_table d_fs set_dfs ccdb [] (m, ls)); cbn [snd app map] in *; rewrite V1; reflexivity | exact F1].
+        + destruct (cc_tree ccdb enc m ls t (kv :: d') h Ht (NoDup_app_l _ _ Hnd) Bt) as (h1 & E1 & V1 & F1). unfold pdict in *.
+          exists h1. rewrite E1. split; [destruct (g_conj_table d_fs set_dfs ccdb (kv :: d') (m, ls)); reflexivity|].
+          split; [destruct (g_conj_table d_fs set_dfs ccdb (kv :: d') (m, ls)); cbn [snd app map] in *; rewrite V1; reflexivity | exact F1].
+      - destruct d as [|kv d'].
+        + destruct (cc_tree ccdb enc m ls t [] h Ht (NoDup_app_l _ _ Hnd) Bt) as (h1 & E1 & V1 & F1). unfold pdict in *.
+          exists h1. rewrite E1. cbn [snd]. split; [destruct (g_conj_table d_fs set_dfs ccdb [] (m, ls)); reflexivity|].
+          split; [destruct (g_conj_table d_fs set_dfs ccdb [] (m, ls)); cbn [snd app map] in *; rewrite V1; reflexivity | exact F1].
+        + destruct (cc_tree ccdb enc m ls t (kv :: d') h Ht (NoDup_app_l _ _ Hnd) Bt) as (h1 & E1 & V1 & F1). unfold pdict in *.
+          exists h1. rewrite E1. split; [destruct (g_conj_table d_fs set_dfs ccdb (kv :: d') (m, ls)); reflexivity|].
+          split; [destruct (g_conj_table d_fs set_dfs ccdb (kv :: d') (m, ls)); cbn [snd app map] in *; rewrite V1; reflexivity | exact F1]. }
+    destruct Hstep as (h1 & E1 & V1 & F1). rewrite E1.
+    remember (g_cstep d_fs set_dfs ccdb sc (d, []) (m, ls)) as g eqn:Eg in *. destruct g as [d1 o1]. rewrite g_csteps_acc. cbn [fst snd] in *.
+    assert (Er : map (erase h1) cs = map (erase h) cs).
+    { apply map_ext_in. intros y Hy. eapply frame_erase; [exact F1|]. intros a Ha Hc. eapply NoDup_app_disj; [exact Hnd | exact Hc|]. unfold tids. apply in_flat_map. exists y. auto. }
+    destruct (IH S d1 h1) as (h2 & E2 & V2 & F2).
+    + rewrite Er. exact Hr.
+    + eapply NoDup_app_r; eauto.
+    + intros y Hy a Ha. destruct F1 as [Lh _]. rewrite Lh. apply (Hb y (or_intror Hy)). exact Ha.
+    + exists h2. cbn [fst snd]. split; [exact E2|]. split.
+      * rewrite (map_app (@vd enc)), <- V1, <- V2. cbn [map app]. f_equal. eapply frame_erase; [exact F2|].
+        intros a Ha Hc. eapply NoDup_app_disj; [exact Hnd | exact Ha | exact Hc].
+      * eapply frame_trans; eauto.
+Qed.
+
+Lemma cc_copy_erase : forall ts s cs s',
+  (forall t, In t ts -> NoDup (tok_ids t) /\ NoDup (node_ids t) /\ forall i, In i (tok_ids t) -> i < ntok s) ->
+  cc_copy ts s = (cs, s') -> EV s cs s' (map (erase (h_toks s)) ts).
+Proof.
+  induction ts as [|t r IH]; intros s cs s' HD H; cbn [cc_copy] in H.
+  - unfold ret in H. inversion H; subst. apply EV_nil.
+  - unfold bind, ret in H. destruct (deepcopy t s) as [c s1] eqn:Ec. destruct (cc_copy r s1) as [cs' s2] eqn:Er.
+    inversion H; subst. destruct (HD t (or_introl eq_refl)) as (N1 & N2 & B).
+    pose proof (deepcopy_erase _ _ _ _ N1 N2 B Ec) as E1. destruct E1 as (A1 & G1 & V1).
+    assert (L1 : ntok s <= ntok s1) by (destruct A1 as (L & _); exact L).
+    assert (E2 : EV s1 cs' s' (map (erase (h_toks s1)) r)).
+    { apply IH; [|exact Er]. intros t' Hin. destruct (HD t' (or_intror Hin)) as (M1 & M2 & B'). split; [exact M1|]. split; [exact M2|].
+      intros i Hi. specialize (B' i Hi). lia. }
+    assert (Er0 : map (erase (h_toks s1)) r = map (erase (h_toks s)) r).
+    { symmetry. apply erase_list_ext. intros i Hi. destruct (grows_agree _ _ G1) as [_ Hag]. apply Hag.
+      unfold tids in Hi. apply in_flat_map in Hi. destruct Hi as (x & Hx & Hix). destruct (HD x (or_intror Hx)) as (_ & _ & B'). apply B'. exact Hix. }
+    rewrite Er0 in E2. change (c :: cs') with ([c] ++ cs')%list. cbn [map]. change (erase (h_toks s) t :: map (erase (h_toks s)) r) with ([erase (h_toks s) t] ++ map (erase (h_toks s)) r)%list.
+    eapply EV_app; [|exact E2]. split; [exact A1|]. split; [exact G1 | exact V1].
+Qed.
+
+(* the CDecay stage: the new tables denote what the table-level operation of Dec/Post.v (at the unresolved line type) says *)
+Theorem cc_decays_den ccdb sc cdecays ccdefs enc D P s ccs s' :
+  separated D -> bounded_by s D -> map (erase (h_toks s)) D = map (@vd enc) P ->
+  cc_decays ccdb sc cdecays ccdefs D s = (ccs, s') ->
+  agree_below (ntok s) (h_toks s) (h_toks s') /\
+  map (erase (h_toks s')) (D ++ ccs) = map (@vd enc) (g_add_cc d_fs set_dfs ccdb sc cdecays ccdefs P).
+Proof.
+  intros Sep [Bt Bn] Hden H. unfold cc_decays in H.
+  assert (HbD : forall t, In t D -> inb (h_toks s) t).
+  { intros t Ht i Hi. apply Bt. unfold tids. apply in_flat_map. exists t. auto. }
+  rewrite (den_mothers enc _ _ _ Hden HbD) in H. unfold cc_names_h in H. unfold g_add_cc.
+  destruct (fold_left (fun l d => remove_one d l) (filter (fun n => smem n (map fst P)) cdecays) cdecays) as [|n0 names] eqn:En.
+  - inversion H; subst. split; [apply agree_below_refl; unfold ntok; lia|]. rewrite app_nil_r. exact Hden.
+  - match type of H with context [cc_copy ?x s] => set (srcs := x) in *; destruct (cc_copy srcs s) as [cs s1] eqn:Ec end.
+    inversion H; subst; clear H.
+    (* the sources *)
+    assert (Hsrc : map (erase (h_toks s)) srcs = map (@vd enc) (g_cc_sources ccdb ccdefs cdecays P) /\ forall t, In t srcs -> In t D).
+    { unfold srcs, g_cc_sources. rewrite En. generalize (n0 :: names). intros l. induction l as [|X l IHl]; [split; [reflexivity | intros t []]|].
+      cbn [flat_map]. destruct IHl as [IH1 IH2].
+      pose proof (den_find_last enc (h_toks s) (cc_match ccdb ccdefs X) D P None Hden HbD) as Hf.
+      destruct (g_find (cc_match ccdb ccdefs X) (rev P)) as [ls|].
+      - destruct Hf as (t & E & Hin & Ee). rewrite E. cbn [app map]. rewrite Ee, IH1. split; [reflexivity|].
+        intros t' [<-|Ht']; [exact Hin | apply IH2; exact Ht'].
+      - rewrite Hf. cbn [app]. split; [exact IH1 | exact IH2]. }
+    destruct Hsrc as [Hs1 Hs2].
+    (* the deep copies *)
+    assert (Ecp : EV s ccs s1 (map (erase (h_toks s)) srcs)).
+    { eapply cc_copy_erase; [|exact Ec]. intros t Ht. destruct (separated_each _ _ Sep (Hs2 t Ht)) as [N1 N2]. split; [exact N1|]. split; [exact N2|].
+      intros i Hi. apply (HbD _ (Hs2 t Ht)). exact Hi. }
+    destruct Ecp as (Acp & Gcp & Vcp). rewrite Hs1 in Vcp.
+    destruct (AL_sep_bounded _ _ _ Acp) as [[Nc _] [Bc _]].
+    (* the visitors *)
+    destruct (cc_steps_den ccdb sc enc ccs (g_cc_sources ccdb ccdefs cdecays P) ccdefs (h_toks s1) Vcp Nc) as (h2 & E2 & V2 & F2).
+    { intros t Ht i Hi. apply Bc. unfold tids. apply in_flat_map. exists t. auto. }
+    rewrite E2. cbn [snd h_toks].
+    assert (Ag1 : agree_below (ntok s) (h_toks s) (h_toks s1)) by (apply grows_agree; exact Gcp).
+    assert (Ag2 : agree_below (ntok s) (h_toks s) h2).
+    { destruct Ag1 as [L1 H1]. destruct F2 as [L2 F2]. split; [lia|]. intros i Hi. rewrite F2; [apply H1; exact Hi|].
+      intros Hin. destruct Acp as (_ & _ & _ & I & _). destruct (I i Hin) as [[]|Hf]. lia. }
+    split; [exact Ag2|]. rewrite !map_app. f_equal; [|exact V2].
+    rewrite <- Hden. apply map_ext_in. intros t Ht. symmetry. eapply erase_agree; [exact Ag2|]. intros i Hi. apply (HbD t Ht). exact Hi.
+Qed.
+
+(* ================================================================== assembly: parse() at object level denotes the tables of the value model *)
+Lemma deepcopy_dict_erase d s d' s' :
+  NoDup (tids (vals d)) -> NoDup (nids (vals d)) -> (forall i, In i (tids (vals d)) -> i < ntok s) ->
+  deepcopy_dict d s = (d', s') -> grows s s' /\ ev_dict (h_toks s') d' = ev_dict (h_toks s) d.
+Proof.
+  unfold deepcopy_dict. intros H1 H2 Hb H. destruct (dcopy_dict d memo0 s) as [[c m] s1] eqn:E. inversion H; subst.
+  destruct (dcopy_dict_keys _ _ _ _ _ _ E) as [K Ln]. apply dcopy_dict_vals in E.
+  destruct (dcopy_list_erase _ _ _ _ _ _ H1 H2 (memo0_free _) Hb E) as [G Ee]. split; [exact G|].
+  apply ev_dict_of_vals; assumption.
+Qed.
+
+Lemma mapME_transform_erase al : al_ok al -> forall D s r s',
+  NoDup (tids D) -> (forall i, In i (tids D) -> i < ntok s) -> (forall i, In i (tids (vals al)) -> i < ntok s) ->
+  mapME (transform al) D s = (r, s') ->
+  grows s s' /\ resl_rel (h_toks s') r (vtransform_list (ev_dict (h_toks s) al) (map (erase (h_toks s)) D)).
+Proof.
+  intros Hal. induction D as [|x r0 IHr]; intros s rc s1 Hnd Hb Hba Ego; cbn [mapME] in Ego.
+  - unfold retE in Ego. inversion Ego; subst. split; [apply grows_refl | reflexivity].
+  - unfold bindE at 1 in Ego. rewrite tids_cons in Hnd, Hb.
+    assert (Nx : NoDup (tok_ids x)) by (eapply NoDup_app_l; eauto).
+    assert (Bx : forall j, In j (tok_ids x) -> j < ntok s) by (intros j Hj; apply Hb; apply in_or_app; left; exact Hj).
+    destruct (transform al x s) as [[x'|e] sx] eqn:Ex.
+    + destruct (transform_erase al Hal x s (inl x') sx Nx Bx Hba Ex) as [Gx Rx].
+      pose proof (transform_spec al Hal x s x' sx Nx Bx Ex) as Tx.
+      assert (Lx : ntok s <= ntok sx) by (destruct Tx as (L & _); exact L).
+      pose proof (grows_agree _ _ Gx) as Agx.
+      unfold bindE at 1 in Ego. destruct (mapME (transform al) r0 sx) as [rr sr] eqn:Er.
+      assert (Br : forall j, In j (tids r0) -> j < ntok sx).
+      { intros j Hj. assert (j < ntok s) by (apply Hb; apply in_or_app; right; exact Hj). lia. }
+      assert (Bal : forall j, In j (tids (vals al)) -> j < ntok sx) by (intros j Hj; specialize (Hba j Hj); lia).
+      destruct (IHr sx rr sr (NoDup_app_r _ _ Hnd) Br Bal Er) as (Gr & Rr).
+      assert (Eal : ev_dict (h_toks sx) al = ev_dict (h_toks s) al).
+      { symmetry. apply (ev_dict_agree (ntok s)); [exact Agx | exact Hba]. }
+      assert (Er0 : map (erase (h_toks sx)) r0 = map (erase (h_toks s)) r0).
+      { symmetry. apply erase_list_ext. intros j Hj. destruct Agx as [_ Hag]. apply Hag. apply Hb. apply in_or_app. right. exact Hj. }
+      rewrite Eal, Er0 in Rr. cbn [map vtransform_list]. unfold res_rel in Rx.
+      destruct (vtransform (ev_dict (h_toks s) al) (erase (h_toks s) x)) as [vx|ve]; [|contradiction].
+      destruct rr as [r'|e].
+      * unfold retE in Ego. injection Ego as Hr Hs. subst rc s1. split; [eapply grows_trans; eauto|].
+        unfold resl_rel in *. destruct (vtransform_list _ _) as [vr|]; [|contradiction]. cbn [map]. f_equal; [|exact Rr].
+        rewrite <- Rx. destruct Gr as [ext ->]. apply erase_ext. intros j Hj. apply app_nth1.
+        destruct Tx as (_ & _ & _ & I & _). destruct (I j) as [Hs|Hf]; [rewrite tids_one; exact Hj | | unfold ntok in *; lia].
+        rewrite tids_one in Hs. specialize (Bx j Hs). unfold ntok in *. lia.
+      * injection Ego as Hr Hs. subst rc s1. split; [eapply grows_trans; eauto|].
+        unfold resl_rel in *. destruct (vtransform_list _ _) as [vr|e']; [contradiction | exact Rr].
+    + destruct (transform_erase al Hal x s (inr e) sx Nx Bx Hba Ex) as [Gx Rx]. injection Ego as Hr Hs. subst rc s1.
+      split; [exact Gx|]. cbn [map vtransform_list]. unfold res_rel in Rx. destruct (vtransform _ _) as [vx|ve]; [contradiction | exact Rx].
+Qed.
+
+Lemma vrename_vd enc new m ls : vrename new (@vd enc (m, ls)) = @vd enc (new, ls).
+Proof. reflexivity. Qed.
+
+Lemma copies_v_den enc h D P : map (erase h) D = map (@vd enc) P -> (forall t, In t D -> inb h t) -> forall copies,
+  copies_v h D copies = map (@vd enc) (flat_map (fun kv : string * string => match g_find (snd kv) (rev P) with Some ls => [(fst kv, ls)] | None => [] end) copies).
+Proof.
+  intros Hden Hb. induction copies as [|[new old] r IH]; [reflexivity|]. unfold copies_v in *. cbn [flat_map fst snd].
+  pose proof (den_find_last enc h old D P None Hden Hb) as Hf. rewrite map_app, <- IH.
+  destruct (g_find old (rev P)) as [ls|].
+  - destruct Hf as (t & E & _ & Ee). rewrite E, Ee, vrename_vd. reflexivity.
+  - rewrite Hf. reflexivity.
+Qed.
+
+Definition params_ok_stmt (st : stmt) : bool :=
+  match st with
+  | SDecay _ ls => forallb (fun d => model_ok (d_model d)) ls
+  | SModelAlias _ m => model_ok m
+  | _ => true
+  end.
+Definition params_ok (f : list stmt) : bool := forallb params_ok_stmt f.
+
+Lemma pd_set_all {V} (Q : V -> Prop) k v (d : pdict V) : Q v -> (forall k' v', pd_get k' d = Some v' -> Q v') -> forall k' v', pd_get k' (pd_set k v d) = Some v' -> Q v'.
+Proof.
+  intros Hv Hd k' v' Hg. destruct (String.eqb k k') eqn:E.
+  - apply String.eqb_eq in E. subst. rewrite pd_get_set_same in Hg. inversion Hg; subst. exact Hv.
+  - rewrite pd_get_set_other in Hg; [eapply Hd; eauto|]. intros ->. rewrite String.eqb_refl in E. discriminate.
+Qed.
+
+Lemma aliases_ok f : params_ok f = true -> forall k m, pd_get k (model_aliases_of f) = Some m -> model_ok m = true.
+Proof.
+  intros Hp. rewrite model_aliases_of_fold.
+  assert (Hin : forall kv, In kv (alias_pairs f) -> model_ok (snd kv) = true).
+  { intros [n m] Hin. unfold alias_pairs in Hin. apply in_flat_map in Hin. destruct Hin as (st & Hst & Hx). unfold params_ok in Hp. rewrite forallb_forall in Hp.
+    specialize (Hp st Hst). destruct st; simpl in Hx; try contradiction. destruct Hx as [Hx|[]]. inversion Hx; subst. exact Hp. }
+  revert Hin. generalize (alias_pairs f). intros l.
+  assert (H0 : forall k' v', pd_get k' (@nil (string * dmodel)) = Some v' -> model_ok v' = true) by (intros ? ? H; discriminate).
+  revert H0. generalize (@nil (string * dmodel)). induction l as [|[n m] l IH]; intros acc Hacc Hin; cbn [fold_left]; [exact Hacc|].
+  apply IH; [|intros kv Hkv; apply Hin; right; exact Hkv]. cbn [fst snd]. apply pd_set_all; [apply (Hin (n, m)); left; reflexivity | exact Hacc].
+Qed.
+
+Lemma raw_decays_ok f : params_ok f = true -> forall t, In t (dedupe [] (raw_decays f)) -> forallb (fun d => model_ok (d_model d)) (snd t) = true.
+Proof.
+  intros Hp t Ht.
+  assert (Hsub : forall l seen x, In x (dedupe seen l) -> In x l).
+  { induction l as [|[m ls] l IH]; intros seen x Hx; [destruct Hx|]. cbn [dedupe] in Hx. destruct (smem m seen); [right; eapply IH; eauto|].
+    destruct Hx as [<-|Hx]; [left; reflexivity | right; eapply IH; eauto]. }
+  apply Hsub in Ht. unfold raw_decays in Ht. apply in_flat_map in Ht. destruct Ht as (st & Hst & Hx).
+  unfold params_ok in Hp. rewrite forallb_forall in Hp. specialize (Hp st Hst). destruct st; simpl in Hx; try contradiction. destruct Hx as [<-|[]]. exact Hp.
+Qed.
+
+Lemma expand_lines_ok mal : (forall k m, pd_get k mal = Some m -> model_ok m = true) -> forall ls ls',
+  forallb (fun d => model_ok (d_model d)) ls = true -> mapH (expand_line mal) ls = inl ls' -> forallb (fun d => model_ok (d_model d)) ls' = true.
+Proof.
+  intros Hm. induction ls as [|d r IH]; intros ls' Hok H; cbn [mapH] in H; [inversion H; reflexivity|].
+  cbn [forallb] in Hok. apply andb_true_iff in Hok. destruct Hok as [Od Or].
+  unfold expand_line at 1 in H. destruct (d_model d) as [l|n opts] eqn:Ed; cbn [expand_model] in H.
+  - destruct (pd_get l mal) as [m'|] eqn:Eg; [|discriminate]. destruct (mapH (expand_line mal) r) as [r'|]; [|discriminate]. inversion H; subst.
+    cbn [forallb d_model]. rewrite (Hm _ _ Eg). apply IH; auto.
+  - destruct (mapH (expand_line mal) r) as [r'|]; [|discriminate]. inversion H; subst. cbn [forallb d_model]. rewrite Od. apply IH; auto.
+Qed.
+
+(* the tables at the unresolved (dline) level: expansion of the aliases, CopyDecay, CDecay *)
+Definition expand_table (mal : pdict dmodel) (t : string * list dline) : (string * list dline) + herr :=
+  match mapH (expand_line mal) (snd t) with inl ls' => inl (fst t, ls') | inr e => inr e end.
+
+Definition ptables (ccdb : string -> string) (sc : string -> option bool) (inc : bool) (f : list stmt) : list (string * list dline) + herr :=
+  match mapH (expand_table (model_aliases_of f)) (dedupe [] (raw_decays f)) with
+  | inr e => inr e
+  | inl P0 =>
+      let P1 := g_add_copies (copies_of f) P0 in
+      inl (if inc then g_add_cc d_fs set_dfs ccdb sc (cdecays_of f) (ccdefs_of f) P1 else P1)
+  end.
+
+Lemma vtransform_decays mal : forall l,
+  vtransform_list (mapv (v_model_children enc_raw) mal) (map vd_raw l) =
+  match mapH (expand_table mal) l with inl P => inl (map (@vd enc_raw) P) | inr e => inr e end.
+Proof.
+  induction l as [|[m ls] l IH]; [reflexivity|]. cbn [map vtransform_list mapH]. unfold vd_raw at 1. cbn [fst snd]. rewrite vtransform_decay.
+  unfold expand_table at 1. cbn [fst snd]. destruct (mapH (expand_line mal) ls); [|reflexivity]. rewrite IH.
+  destruct (mapH (expand_table mal) l); reflexivity.
+Qed.
+
+Lemma expand_tables_ok mal : (forall k m, pd_get k mal = Some m -> model_ok m = true) -> forall l P,
+  (forall t, In t l -> forallb (fun d => model_ok (d_model d)) (snd t) = true) -> mapH (expand_table mal) l = inl P ->
+  forall t, In t P -> forallb (fun d => model_ok (d_model d)) (snd t) = true.
+Proof.
+  intros Hm. induction l as [|[m ls] l IH]; intros P Hl H t Ht; cbn [mapH] in H; [inversion H; subst; destruct Ht|].
+  unfold expand_table at 1 in H. cbn [fst snd] in H. destruct (mapH (expand_line mal) ls) as [ls'|] eqn:El; [|discriminate].
+  destruct (mapH (expand_table mal) l) as [P'|] eqn:EP; [|discriminate]. inversion H; subst. destruct Ht as [<-|Ht].
+  - cbn [snd]. eapply expand_lines_ok; [exact Hm | | exact El]. apply (Hl (m, ls)). left. reflexivity.
+  - eapply IH; [| reflexivity | exact Ht]. intros t' Ht'. apply Hl. right. exact Ht'.
+Qed.
+
+Theorem parse_heap_den ccdb sc inc f P :
+  params_ok f = true -> ptables ccdb sc inc f = inl P ->
+  exists r, parse_heap ccdb sc inc f = inl r /\
+            map (erase (h_toks (r_state r))) (r_decays r) = map (@vd (enc_res (defs_of f))) P.
+Proof.
+  intros Hpar HP. unfold ptables in HP.
+  destruct (mapH (expand_table (model_aliases_of f)) (dedupe [] (raw_decays f))) as [P0|] eqn:EP0; [|discriminate].
+  unfold parse_heap.
+  destruct (mk_file f {| h_toks := []; h_next := 0 |}) as [F s1] eqn:EF.
+  destruct (raw_aliases F [] s1) as [al0 s2] eqn:Eal0.
+  destruct (deepcopy_dict al0 s2) as [al s3] eqn:Eal.
+  match goal with |- context [mapME (transform al) ?D s3] => set (D0 := D) in * end.
+  (* shapes, values of the file *)
+  pose proof (file_mo_ok _ _ _ _ EF) as OkF.
+  pose proof (EV_file _ _ _ _ EF) as (AF & GF & VF).
+  destruct (AL_sep_bounded _ _ _ AF) as [[SF1 SF2] [BF1 BF2]].
+  (* the alias dictionary *)
+  destruct (raw_aliases_spec s1 F [] s1 al0 s2) as (Hd0 & L12 & N12); auto.
+  { unfold DOK, vals, tids, nids. simpl. split; [constructor|]. split; [constructor|]. split; intros i []. }
+  destruct Hd0 as (V1 & V2 & B01 & _).
+  destruct (raw_aliases_erase s1 F [] s1 al0 s2 SF1 SF2 BF1 (le_n _)) as (Ag12 & _ & Bal0 & Eal0v); auto.
+  { apply agree_below_refl. unfold ntok. lia. }
+  { intros i []. }
+  pose proof (deepcopy_dict_spec _ _ _ _ V1 V2 Eal) as Aal. destruct (AL_sep_bounded _ _ _ Aal) as [[SA1 SA2] [BA _]].
+  destruct (deepcopy_dict_erase _ _ _ _ V1 V2 Bal0 Eal) as [G23 Ealv].
+  assert (L23 : ntok s2 <= ntok s3 /\ h_next s2 <= h_next s3) by (destruct Aal as (A & B & _); auto).
+  pose proof (al_ok_of_nodup _ SA1 SA2) as Hal.
+  assert (Hsh : al_shape_ok al).
+  { apply al_shape_ok_of_vals. apply (Forall_mo_ok_of_shapes (vals al0) (vals al)).
+    - exact (deepcopy_dict_shape _ _ _ _ V1 V2 Eal).
+    - eapply raw_aliases_shape; [exact SF1 | exact SF2 | exact OkF | | exact Eal0]. constructor. }
+  assert (Ealv3 : ev_dict (h_toks s3) al = mapv (v_model_children enc_raw) (model_aliases_of f)).
+  { rewrite Ealv, Eal0v. rewrite VF. change (ev_dict (h_toks s1) []) with (mapv (v_model_children enc_raw) (@nil (string * dmodel))).
+    rewrite aliases_fold_file. reflexivity. }
+  (* the kept Decay blocks *)
+  assert (Sub : sublist D0 F).
+  { unfold D0. eapply sublist_trans; [apply dedupe_h_sublist | apply sublist_filter]. }
+  assert (ND0 : NoDup (tids D0)) by (eapply sublist_flat_nodup; eauto).
+  assert (BD01 : forall i, In i (tids D0) -> i < ntok s1) by (intros i Hi; apply BF1; eapply sublist_flat_in; eauto).
+  assert (BD0 : forall i, In i (tids D0) -> i < ntok s3) by (intros i Hi; specialize (BD01 i Hi); lia).
+  assert (OkD0 : Forall mo_ok D0).
+  { apply Forall_forall. intros t Ht. rewrite Forall_forall in OkF. apply OkF. eapply sublist_in; eauto. }
+  assert (ED0 : map (erase (h_toks s1)) D0 = map vd_raw (dedupe [] (raw_decays f))).
+  { unfold D0. rewrite dedupe_h_erase.
+    - rewrite <- (filter_map_comm (vis_data "decay") (is_data "decay") (erase (h_toks s1))) by (intros; symmetry; apply is_data_erase).
+      rewrite VF, filter_decay_file. apply vdedupe_decays.
+    - intros t Ht i Hi. apply BF1. apply filter_In in Ht. unfold tids. apply in_flat_map. exists t. split; [apply Ht | exact Hi]. }
+  assert (Ag13 : agree_below (ntok s1) (h_toks s1) (h_toks s3)).
+  { eapply agree_below_trans; [| exact Ag12 | apply grows_agree; exact G23 |]; unfold ntok in *; lia. }
+  assert (ED03 : map (erase (h_toks s3)) D0 = map vd_raw (dedupe [] (raw_decays f))).
+  { rewrite <- ED0. apply map_ext_in. intros t Ht. symmetry. eapply erase_agree; [exact Ag13|]. intros i Hi. apply BD01. unfold tids. apply in_flat_map. exists t. auto. }
+  (* the Transformer *)
+  destruct (mapME (transform al) D0 s3) as [rD s4] eqn:ED1.
+  destruct (mapME_transform_erase al Hal D0 s3 rD s4 ND0 BD0) as [G34 R34]; [|exact ED1|].
+  { intros i Hi. apply BA. exact Hi. }
+  rewrite Ealv3, ED03, vtransform_decays, EP0 in R34. unfold resl_rel in R34. destruct rD as [D1|e]; [|contradiction].
+  pose proof (mapME_transform_spec al Hal D0 s3 D1 s4 ND0 BD0 ED1) as T1.
+  pose proof (mapME_transform_mo_ok al Hal Hsh D0 s3 D1 s4 OkD0 ED1) as OkD1.
+  destruct (TL_sep_bounded s3 D0 D1 s4) as [S1 B1]; [split; [exact BD0|] | exact T1 |].
+  { intros i Hi. assert (i < h_next s1) by (apply BF2; eapply sublist_flat_in; eauto). lia. }
+  (* the value visitor *)
+  pose proof (aliases_ok f Hpar) as Hmal.
+  pose proof (expand_tables_ok _ Hmal _ _ (raw_decays_ok f Hpar) EP0) as OkP0.
+  destruct (visit_pass (defs_of f) D1 (h_toks s4) (proj1 S1) (proj2 S1)) as (h5 & E5 & V5 & F5).
+  { intros t Ht. split; [rewrite Forall_forall in OkD1; apply OkD1; exact Ht|]. split.
+    - intros i Hi. apply (proj1 B1). unfold tids. apply in_flat_map. exists t. auto.
+    - assert (Hin : In (erase (h_toks s4) t) (map (@vd enc_raw) P0)) by (rewrite <- R34; apply in_map; exact Ht).
+      apply in_map_iff in Hin. destruct Hin as ([m ls] & <- & Hp). apply vok_decay. apply (OkP0 _ Hp). }
+  rewrite E5. rewrite R34, map_map in V5.
+  assert (V5' : map (erase h5) D1 = map (@vd (enc_res (defs_of f))) P0).
+  { rewrite V5. apply map_ext. intros [m ls]. apply vvisit_decay. }
+  set (s5 := {| h_toks := h5; h_next := h_next s4 |}) in *.
+  assert (B5 : bounded_by s5 D1).
+  { destruct F5 as [L5 _]. eapply bounded_sizes; [| |exact B1]; unfold ntok; simpl; auto. }
+  (* CopyDecay *)
+  destruct (copy_decays (copies_of f) D1 s5) as [cps s6] eqn:Ecp.
+  destruct (copy_decays_law D1 S1 (copies_of f) s5 cps s6 B5 Ecp) as [Ag56 Vcp].
+  assert (HbD1 : forall t, In t D1 -> inb h5 t).
+  { intros t Ht i Hi. apply (proj1 B5). unfold tids. apply in_flat_map. exists t. auto. }
+  change (h_toks s5) with h5 in Vcp. rewrite (copies_v_den _ h5 D1 P0 V5' HbD1) in Vcp.
+  assert (Acp : AL s5 cps s6).
+  { eapply copy_decays_spec; [|exact Ecp]. intros t Hin. eapply separated_each; eauto. }
+  destruct (sep_app_fresh _ _ _ _ S1 B5 Acp) as [S2 B2].
+  assert (V6 : map (erase (h_toks s6)) (D1 ++ cps) = map (@vd (enc_res (defs_of f))) (g_add_copies (copies_of f) P0)).
+  { unfold g_add_copies. rewrite !map_app. f_equal; [|exact Vcp]. rewrite <- V5'. apply map_ext_in. intros t Ht. symmetry.
+    eapply erase_agree; [exact Ag56|]. intros i Hi. apply (proj1 B5). unfold tids. apply in_flat_map. exists t. auto. }
+  destruct inc.
+  - destruct (cc_decays ccdb sc (cdecays_of f) (ccdefs_of f) (D1 ++ cps) s6) as [ccs s7] eqn:Ecc.
+    destruct (cc_decays_den ccdb sc (cdecays_of f) (ccdefs_of f) _ (D1 ++ cps) _ s6 ccs s7 S2 B2 V6 Ecc) as [_ V7].
+    eexists. split; [reflexivity|]. cbn [r_state r_decays]. inversion HP; subst. exact V7.
+  - eexists. split; [reflexivity|]. cbn [r_state r_decays]. inversion HP; subst. exact V6.
+Qed.
+
+(* ------------------------------------------------------------------ from the unresolved tables to the tables of Dec/Post.v *)
+Definition res_line (defs : pdict Q) (d : dline) : line :=
+  match d_model d with MName n opts => line_of defs d n opts | MLabel l => line_of defs d l None end.
+Definition is_mname (d : dline) : Prop := match d_model d with MName _ _ => True | MLabel _ => False end.
+
+Lemma res_get defs d : l_fs (res_line defs d) = d_fs d.
+Proof. unfold res_line. destruct (d_model d); reflexivity. Qed.
+Lemma res_set defs d fs : res_line defs (set_dfs d fs) = set_lfs (res_line defs d) fs.
+Proof. unfold res_line. cbn [set_dfs d_model]. destruct (d_model d); reflexivity. Qed.
+
+Lemma resolve_line_expand mal defs d L : resolve_line mal defs d = inl L ->
+  exists d', expand_line mal d = inl d' /\ is_mname d' /\ res_line defs d' = L.
+Proof.
+  unfold resolve_line, expand_line, resolve_model. destruct (d_model d) as [l|n opts] eqn:Ed; cbn [expand_model].
+  - destruct (pd_get l mal) as [[l'|n opts]|]; try discriminate. intros H. inversion H; subst. eexists. split; [reflexivity|]. split; [exact I | reflexivity].
+  - intros H. inversion H; subst. eexists. split; [reflexivity|]. split; [exact I | reflexivity].
+Qed.
+
+Lemma resolve_lines_expand mal defs : forall ls Ls, mapE (resolve_line mal defs) ls = inl Ls ->
+  exists ls', mapH (expand_line mal) ls = inl ls' /\ Forall is_mname ls' /\ map (res_line defs) ls' = Ls.
+Proof.
+  induction ls as [|d r IH]; intros Ls H; cbn [mapE] in H.
+  - inversion H; subst. exists []. split; [reflexivity|]. split; [constructor | reflexivity].
+  - destruct (resolve_line mal defs d) as [L|] eqn:El; [|discriminate]. destruct (mapE (resolve_line mal defs) r) as [Lr|] eqn:Er; [|discriminate].
+    inversion H; subst. destruct (resolve_line_expand _ _ _ _ El) as (d' & Ed & Md & Rd). destruct (IH _ eq_refl) as (r' & Er' & Mr & Rr).
+    exists (d' :: r'). cbn [mapH]. rewrite Ed, Er'. split; [reflexivity|]. split; [constructor; assumption | cbn [map]; rewrite Rd, Rr; reflexivity].
+Qed.
+
+Definition res_table (defs : pdict Q) (t : string * list dline) : table := (fst t, map (res_line defs) (snd t)).
+
+Lemma resolve_tables_expand mal defs : forall l T, mapE (resolve_table mal defs) l = inl T ->
+  exists P, mapH (expand_table mal) l = inl P /\ Forall (fun t => Forall is_mname (snd t)) P /\ map (res_table defs) P = T.
+Proof.
+  induction l as [|[m ls] l IH]; intros T H; cbn [mapE] in H.
+  - inversion H; subst. exists []. split; [reflexivity|]. split; [constructor | reflexivity].
+  - unfold resolve_table at 1 in H. cbn [fst snd] in H. destruct (mapE (resolve_line mal defs) ls) as [Ls|] eqn:El; [|discriminate].
+    destruct (mapE (resolve_table mal defs) l) as [Tr|] eqn:Er; [|discriminate]. inversion H; subst.
+    destruct (resolve_lines_expand _ _ _ _ El) as (ls' & E1 & M1 & R1). destruct (IH _ eq_refl) as (P & E2 & M2 & R2).
+    exists ((m, ls') :: P). cbn [mapH]. unfold expand_table at 1. cbn [fst snd]. rewrite E1, E2. split; [reflexivity|]. split; [constructor; assumption|].
+    cbn [map]. unfold res_table at 1. cbn [fst snd]. rewrite R1, R2. reflexivity.
+Qed.
+
+(* a property of lines kept by set_fs is kept by the table operations *)
+Section Preserve.
+Context {L : Type} (get_fs : L -> list string) (set_fs : L -> list string -> L) (Pr : L -> Prop).
+Hypothesis set_pres : forall l fs, Pr l -> Pr (set_fs l fs).
+Definition tok (t : string * list L) : Prop := Forall Pr (snd t).
+
+Lemma pres_find m T ls : Forall tok T -> g_find m T = Some ls -> Forall Pr ls.
+Proof.
+  induction T as [|[m' ls'] T IH]; cbn [g_find]; intros HT H; [discriminate|]. inversion HT; subst.
+  destruct (String.eqb m m'); [inversion H; subst; assumption | auto].
+Qed.
+Lemma Forall_rev' {A} (Q : A -> Prop) l : Forall Q l -> Forall Q (rev l).
+Proof. intros H. apply Forall_forall. intros x Hx. rewrite Forall_forall in H. apply H. apply in_rev. exact Hx. Qed.
+
+Lemma pres_add_copies copies T : Forall tok T -> Forall tok (g_add_copies copies T).
+Proof.
+  intros HT. unfold g_add_copies. apply Forall_app. split; [exact HT|]. apply Forall_forall. intros t Ht. apply in_flat_map in Ht.
+  destruct Ht as (kv & _ & Ht). destruct (g_find (snd kv) (rev T)) as [ls|] eqn:E; [|destruct Ht]. destruct Ht as [<-|[]].
+  unfold tok. cbn [snd]. eapply pres_find; [apply Forall_rev'; exact HT | exact E].
+Qed.
+
+Lemma pres_conj_lines ccdb : forall ls d, Forall Pr ls -> Forall Pr (snd (g_conj_lines get_fs set_fs ccdb d ls)).
+Proof.
+  induction ls as [|l ls IH]; intros d H; [constructor|]. inversion H; subst. rewrite g_conj_lines_cons. cbn [snd]. constructor; [apply set_pres; assumption | apply IH; assumption].
+Qed.
+Lemma pres_conj_table ccdb d t : tok t -> tok (snd (g_conj_table get_fs set_fs ccdb d t)).
+Proof.
+  destruct t as [m ls]. unfold g_conj_table, tok. cbn [snd]. intros H. pose proof (pres_conj_lines ccdb ls d H) as Hc.
+  destruct (g_conj_lines get_fs set_fs ccdb d ls) as [d1 ls']. destruct (visit_names ccdb d1 [m]). cbn [snd] in *. exact Hc.
+Qed.
+Lemma pres_csteps ccdb sc : forall S acc, Forall tok S -> Forall tok (snd acc) -> Forall tok (snd (fold_left (g_cstep get_fs set_fs ccdb sc) S acc)).
+Proof.
+  induction S as [|t S IH]; intros [d out] HS Hacc; [exact Hacc|]. inversion HS; subst. cbn [fold_left]. apply IH; [assumption|].
+  unfold g_cstep. cbn [snd] in Hacc. destruct (sc (fst t)) as [[|]|].
+  - cbn [snd]. apply Forall_app. split; [assumption | constructor; [assumption | constructor]].
+  - destruct d as [|kv d']; [pose proof (pres_conj_table ccdb [] t H1) as Hc; destruct (g_conj_table get_fs set_fs ccdb [] t)
+                            | pose proof (pres_conj_table ccdb (kv :: d') t H1) as Hc; destruct (g_conj_table get_fs set_fs ccdb (kv :: d') t)];
+      cbn [snd] in *; apply Forall_app; (split; [assumption | constructor; [assumption | constructor]]).
+  - destruct d as [|kv d']; [pose proof (pres_conj_table ccdb [] t H1) as Hc; destruct (g_conj_table get_fs set_fs ccdb [] t)
+                            | pose proof (pres_conj_table ccdb (kv :: d') t H1) as Hc; destruct (g_conj_table get_fs set_fs ccdb (kv :: d') t)];
+      cbn [snd] in *; apply Forall_app; (split; [assumption | constructor; [assumption | constructor]]).
+Qed.
+Lemma pres_add_cc ccdb sc cdecays ccdefs T : Forall tok T -> Forall tok (g_add_cc get_fs set_fs ccdb sc cdecays ccdefs T).
+Proof.
+  intros HT. unfold g_add_cc. destruct (fold_left _ _ cdecays); [exact HT|]. apply Forall_app. split; [exact HT|].
+  apply pres_csteps; [|constructor]. unfold g_cc_sources. apply Forall_forall. intros t Ht. apply in_flat_map in Ht. destruct Ht as (X & _ & Ht).
+  cbv zeta in Ht. destruct (g_find (cc_match ccdb ccdefs X) (rev T)) as [ls|] eqn:E; [|destruct Ht]. destruct Ht as [<-|[]].
+  unfold tok. cbn [snd]. eapply pres_find; [apply Forall_rev'; exact HT | exact E].
+Qed.
+End Preserve.
+
+Lemma is_mname_set d fs : is_mname d -> is_mname (set_dfs d fs).
+Proof. unfold is_mname. cbn [set_dfs d_model]. auto. Qed.
+
+Lemma vread_table_res defs t : Forall is_mname (snd t) -> vread_table (@vd (enc_res defs) t) = Some (res_table defs t).
+Proof.
+  destruct t as [m ls]. cbn [snd]. intros H. unfold vd, v_decay, vread_table. cbn [fst snd vleafstr v_particle vtokstr vtokval v_tok].
+  rewrite mapO_map. rewrite (mapO_ext _ (fun d => Some (res_line defs d))).
+  - rewrite (mapO_all _ (res_line defs)) by reflexivity. reflexivity.
+  - intros d Hd. rewrite Forall_forall in H. specialize (H d Hd). unfold is_mname in H. unfold res_line.
+    destruct (d_model d) as [l|n opts] eqn:Ed; [destruct H|]. apply vread_line_res. exact Ed.
+Qed.
+
+Theorem ptables_post ccdb sc inc f T : parse_post ccdb sc inc f = inl T ->
+  exists P, ptables ccdb sc inc f = inl P /\ Forall (fun t => Forall is_mname (snd t)) P /\ map (res_table (defs_of f)) P = T.
+Proof.
+  unfold parse_post, ptables. intros H.
+  destruct (mapE (resolve_table (model_aliases_of f) (defs_of f)) (dedupe [] (raw_decays f))) as [T0|] eqn:E0; [|discriminate].
+  destruct (resolve_tables_expand _ _ _ _ E0) as (P0 & EP & MP & RP). rewrite EP. inversion H; subst; clear H.
+  set (defs := defs_of f).
+  assert (Hc : map (res_table defs) (g_add_copies (copies_of f) P0) = add_copies (copies_of f) (map (res_table defs) P0)).
+  { rewrite <- g_add_copies_line. symmetry. apply (nat_add_copies (res_line defs)). }
+  assert (Mc : Forall (fun t => Forall is_mname (snd t)) (g_add_copies (copies_of f) P0)) by (apply (pres_add_copies is_mname); exact MP).
+  destruct inc.
+  - eexists. split; [reflexivity|]. split.
+    + apply (pres_add_cc d_fs set_dfs is_mname is_mname_set). exact Mc.
+    + rewrite <- g_add_cc_line. rewrite <- Hc. symmetry. apply (nat_add_cc d_fs set_dfs l_fs set_lfs (res_line defs) (res_get defs) (res_set defs)).
+  - eexists. split; [reflexivity|]. split; [exact Mc | exact Hc].
+Qed.
+
+(* ================================================================== THE REFINEMENT THEOREM *)
+(* whenever the value model of parse() yields tables, the object-level algorithm (new Tree objects, deep copies with memo,
+   in-place writes to Token.value) terminates without error in a state whose decay trees read back as exactly those tables *)
+Theorem parse_heap_refines ccdb sc inc f T :
+  params_ok f = true -> parse_post ccdb sc inc f = inl T ->
+  exists r, parse_heap ccdb sc inc f = inl r /\ tables_of r = Some T.
+Proof.
+  intros Hpar Hpost. destruct (ptables_post _ _ _ _ _ Hpost) as (P & HP & MP & RP).
+  destruct (parse_heap_den _ _ _ _ _ Hpar HP) as (r & Hr & Hd). exists r. split; [exact Hr|].
+  destruct (parse_heap_separated _ _ _ _ _ Hr) as [_ [Bt _]].
+  unfold tables_of. rewrite (mapO_ext _ (fun t => vread_table (erase (h_toks (r_state r)) t))).
+  - rewrite <- mapO_map. rewrite Hd. rewrite mapO_map. rewrite (mapO_ext _ (fun t => Some (res_table (defs_of f) t))).
+    + rewrite (mapO_all _ (res_table (defs_of f))) by reflexivity. rewrite RP. reflexivity.
+    + intros t Ht. apply vread_table_res. rewrite Forall_forall in MP. apply MP. exact Ht.
+  - intros t Ht. apply read_table_erase. intros i Hi. apply Bt. unfold tids. apply in_flat_map. exists t. auto.
 Qed.
